@@ -42,10 +42,8 @@ func verifC07ReadLoop(data []byte) string {
 		if n > len(data)+1 {
 			panic("verif: more messages than input bytes (no progress)")
 		}
-		if pkt, err := p.DecodeMessage(m); err == nil {
+		if _, err := p.DecodeMessage(m); err == nil {
 			dec++
-			pkt.Size()
-			pkt.MarshalBinary()
 		}
 	}
 	switch {
@@ -67,12 +65,9 @@ func verifC07Decode(data []byte) string {
 	m := NewMessage()
 	m.MessageType = types[int(data[0])%len(types)]
 	m.Payload = data[1:]
-	pkt, err := p.DecodeMessage(m)
-	if err != nil {
+	if _, err := p.DecodeMessage(m); err != nil {
 		return "err"
 	}
-	pkt.Size()
-	pkt.MarshalBinary()
 	return "ok"
 }
 
@@ -99,8 +94,6 @@ func verifC07Unmarshal(data []byte) string {
 	if err := pkt.UnmarshalBinary(data[1:]); err != nil {
 		return "err"
 	}
-	pkt.Size()
-	pkt.MarshalBinary()
 	return "ok"
 }
 
